@@ -136,6 +136,14 @@ def replay_lines(ctx, rec):
             g = dbio.ids_of(meth(dec(q["x"]), level=None if q["l"] == 0 else q["l"]))
             if sorted(g) != sorted(q["ids"]) or len(set(map(json.dumps, g))) != len(g):
                 return True
+    # an update with one unrelated feature must leave the relations as the model says
+    extra = feat("gene", 1, 9, [("ID", ["u"])])
+    hist[0]["steps"] = [{"op": "update", "feats": [extra], "cfg": rec["case"].get("cfg", DEFAULT_CFG)}]
+    e2 = model(ctx, hist, workers=1)[0]
+    with dbio.quiet():
+        db.update([real_feature(extra)], make_backup=False)
+    if sorted([list(r) for r in dbio.rel_rows(db.conn)]) != sorted([list(r) for r in e2["traj"][-1]["db"]["rels"]]):
+        return True
     return False
 
 
@@ -173,6 +181,8 @@ def _item(it):
 
 def real_idspec(spec):
     """the id_spec argument denoted by the specification's record (string / list / dict / callable forms)"""
+    if spec["kind"] == "default":
+        return None                                  # let the importer choose its own default
     if spec["kind"] == "dict":
         return {dec(ft): ([_item(i) for i in items] if len(items) != 1 or items[0]["t"] != "attr" else _item(items[0]))
                 for ft, items in spec["map"]}
@@ -183,7 +193,9 @@ def real_idspec(spec):
 
 
 def real_kwargs(cfg, importer_kwargs=True):
-    kw = {"id_spec": real_idspec(cfg["idspec"]), "merge_strategy": cfg["strategy"]}
+    kw = {"merge_strategy": cfg["strategy"]}
+    if real_idspec(cfg["idspec"]) is not None:
+        kw["id_spec"] = real_idspec(cfg["idspec"])
     if cfg["fmf"]:
         kw["force_merge_fields"] = list(cfg["fmf"])
     if cfg.get("noT"):
